@@ -26,38 +26,65 @@ every check), and a configuration on which the interpreter itself panics.
 What is proved instead, for EVERY structured configuration (all keys, all values, any number of
 entries — no bound):
 
-* `accept_safe_partial`: an accepted configuration satisfies `RunSafe` unless one of twelve named,
-  decidable, purely syntactic finding predicates holds of it (plus the platform exclusion
-  `ExcelOutput`); a finding whose repair is declared needs no exclusion (`repaired_*`: with the
-  repair such a configuration is rejected with an error value, or its site is guarded).  The predicates are evaluated by the Lean driver on the structured form of every
-  generated configuration; a crash of the real explorer is suppressed as a known finding only if the
-  predicate that the driver found to hold matches the panic — so what is suppressed is exactly what
-  this theorem excludes, and a crash of a configuration the theorem covers is reported as
+* `accept_safe_partial`: an accepted configuration satisfies `RunSafe` unless one of the named,
+  decidable, purely syntactic finding predicates holds of it (fifteen hypotheses, plus the platform exclusion
+  `ExcelOutput`; a sixteenth finding, `CatchmentDataSetMalformed`, is a special case of
+  `CatchmentDataSourceNotLoadable`); a finding whose repair is declared needs no exclusion (`repaired_*`: with the
+  repair such a configuration is rejected with an error value, or its site is guarded).  The predicates are evaluated
+  by the Lean driver on the structured form of every generated configuration; a crash of the real explorer is
+  suppressed as a known finding only if the predicate that the driver found to hold matches the panic — so what is
+  suppressed is exactly what this theorem excludes, and a crash of a configuration the theorem covers is reported as
   `config:unexplained-crash`.
+* `accept_safe_tree`: the same at `rTree`, the repairs that ARE in crem today (the suite's `repairs=` argument): nine
+  exclusions remain; `findingNames_tree`: the driver can list no other finding there.
 * `finding_unsafe_*`: conversely each finding, on an accepted configuration, really breaks a
-  precondition: none of the exclusions is vacuous or too wide.  Together: `accept_safe_iff`.
+  precondition: none of the exclusions is vacuous or too wide.  Together: `accept_safe_iff`.  (These relate two
+  transcriptions of one list of failure sites — one on `Cfg`, one on `Loaded`; neither constrains crem.  The tie to
+  crem is the correspondence: every accepted generated configuration is run.)
 * `repaired_findings_rejected`, `repaired_names_on_accepted`: with its repair declared a finding no longer holds of
-  any accepted configuration (or, for the two guarded sites, is harmless); the driver still lists such findings
+  any accepted configuration (or, for the three guarded sites, is harmless); the driver still lists such findings
   (`fixed=`) so that a crash at a repaired site is reported under the finding's own signature.
-* `reject_is_error_partial`: unless the data source is a readable non-data-set, loader and
-  interpreter return `accepted` or ONE error value with a non-empty list of classes; `load_total`.
+* `reject_is_error_partial`: unless the data source is a readable non-data-set or a value is too large to round,
+  loader and interpreter return `accepted` or ONE error value with a non-empty list of classes; `load_total`.
+  Both are STRUCTURAL: they say that the model's verdict function has the shape "accepted or a non-empty error
+  value" outside its own panic clause (`interpretPanics`); what they are worth is what the correspondence shows
+  about that clause (the generated space reaches it with the shipped table-less CSV, with mutated data sets and
+  with huge initial values).
 
-Missing for the full property (hence "partial"): TOML parsing is not modelled; `RunSafe` is an
-enumeration by reading (a missed site shows up in the correspondence as an unexplained crash, not
-silently); that the real run completes under `RunSafe` is observed by the correspondence
-(every accepted generated configuration is run), not proved.
+Missing for the full property (hence "partial"):
+* TOML parsing is not modelled;
+* `RunSafe` is an enumeration by reading (a missed site shows up in the correspondence as an unexplained crash, not
+  silently — the third round found one that way: values beyond MaxFloat64/10^6 fail once the Annealing level is logged);
+* that the real run COMPLETES under `RunSafe` is observed by the correspondence (every accepted generated
+  configuration is run), not proved;
+* the clause "WRITES A RESULT FOR EACH RUN" is covered by no theorem: there is no run function and no notion of a
+  written result in the model.  `RunSafe.resultNameable` is only the static precondition of the saver found by
+  reading (every run's summary file name is distinct and can be created); that each run of an accepted configuration
+  leaves exactly one summary file is checked by the suite alone (direct check, exact count);
+* the CONTENT of a CSV data set is a parameter of no theorem: it enters through the class of a path symbol
+  (`PathKind`), realised by the harness (shipped files and a catalogue of edits of their copies).
 -/
 namespace Crem.Config
+
+/-! ## repair declarations -/
+
+/-- no repair declared -/
+def r0 : Repairs := {}
+/-- every proposed repair declared -/
+def rAll : Repairs := ⟨true, true, true, true, true, true, true, true, true⟩
+/-- the repairs that are in crem today (the `repairs=` argument in checkprops.py): all but D17's (proposed only) and
+C12's re-anchored summary file name (proposed by the C12 work) -/
+def rTree : Repairs := { rAll with objectiveChecked := false, summaryNameAnchored := false }
 
 /-! ## the Boolean the driver prints is the proposition -/
 
 theorem runSafe_iff (r : Repairs) (env : Env) (l : Loaded) : RunSafe r env l ↔ runSafeB r env l = true := by
   constructor
   · intro h
-    obtain ⟨h1, h2, h3, h4, h5, h6, h8, h9, h10, h11, h12⟩ := h
+    obtain ⟨h1, h2, h3, h4, h5, h6, h8, h9, h10, h11, h12, h13, h14⟩ := h
     unfold runSafeB
     simp only [Bool.and_eq_true]
-    refine ⟨⟨⟨⟨⟨⟨⟨⟨⟨⟨?_, ?_⟩, ?_⟩, ?_⟩, ?_⟩, ?_⟩, ?_⟩, ?_⟩, ?_⟩, ?_⟩, ?_⟩
+    refine ⟨⟨⟨⟨⟨⟨⟨⟨⟨⟨⟨⟨?_, ?_⟩, ?_⟩, ?_⟩, ?_⟩, ?_⟩, ?_⟩, ?_⟩, ?_⟩, ?_⟩, ?_⟩, ?_⟩, ?_⟩
     · rcases h1 with h | h | h
       · simp [h]
       · simp [h]
@@ -78,7 +105,7 @@ theorem runSafe_iff (r : Repairs) (env : Env) (l : Loaded) : RunSafe r env l ↔
       · simpa using h5 hc
     · simpa using h6
     · cases ho : l.outputPath with
-      | path p => simpa using h8 p ho
+      | path p => rcases h8 p ho with hd | hd <;> simp [hd]
       | _ => rfl
     · simpa using h9
     · rcases h10 with h | h
@@ -88,11 +115,13 @@ theorem runSafe_iff (r : Repairs) (env : Env) (l : Loaded) : RunSafe r env l ↔
       | path p => simpa using h11 p ho
       | _ => rfl
     · simpa using h12
+    · simp [h13]
+    · exact h14
   · intro h
     unfold runSafeB at h
     simp only [Bool.and_eq_true] at h
-    obtain ⟨⟨⟨⟨⟨⟨⟨⟨⟨⟨h1, h2⟩, h3⟩, h4⟩, h5⟩, h6⟩, h8⟩, h9⟩, h10⟩, h11⟩, h12⟩ := h
-    refine ⟨?_, ?_, ?_, ?_, ?_, ?_, ?_, ?_, ?_, ?_, ?_⟩
+    obtain ⟨⟨⟨⟨⟨⟨⟨⟨⟨⟨⟨⟨h1, h2⟩, h3⟩, h4⟩, h5⟩, h6⟩, h8⟩, h9⟩, h10⟩, h11⟩, h12⟩, h13⟩, h14⟩ := h
+    refine ⟨?_, ?_, ?_, ?_, ?_, ?_, ?_, ?_, ?_, ?_, ?_, ?_, ?_⟩
     · by_cases ha : l.reportEvery = 0
       · by_cases hb : annealingDiscarded l = true
         · exact .inr (.inl hb)
@@ -113,6 +142,8 @@ theorem runSafe_iff (r : Repairs) (env : Env) (l : Loaded) : RunSafe r env l ↔
       · exact .inl rfl
     · intro p hp; simpa [hp] using h11
     · simpa using h12
+    · simpa using h13
+    · exact h14
 
 instance (r : Repairs) (env : Env) (l : Loaded) : Decidable (RunSafe r env l) :=
   decidable_of_iff _ (runSafe_iff r env l).symm
@@ -122,7 +153,7 @@ instance (r : Repairs) (env : Env) (l : Loaded) : Decidable (RunSafe r env l) :=
 /-- **accept_safe_partial.**  For every structured configuration that loader and interpreter
 accept, every precondition of `RunSafe` holds, provided none of the named findings holds of it;
 a finding whose repair is declared to be in the tree needs no exclusion.
-(The full statement `accept_safe`, without the thirteen finding/platform hypotheses, is refuted below.) -/
+(The full statement `accept_safe`, without the sixteen finding/platform hypotheses, is refuted below.) -/
 theorem accept_safe_partial (r : Repairs) (env : Env) (c : Cfg) (l : Loaded)
     (hload : load r c = .ok l) (hinterp : interpret r l = [])
     (h1 : r.reportEveryChecked = true ∨ ReportingModuloZero c = false)
@@ -137,6 +168,9 @@ theorem accept_safe_partial (r : Repairs) (env : Env) (c : Cfg) (l : Loaded)
     (h11 : r.concurrencyCapped = true ∨ ConcurrencyOutOfRange c = false)
     (h12 : r.cpuProfilePathChecked = true ∨ CpuProfilePathNotCreatable c = false)
     (h12d : CpuProfilePathIsDirectory c = false)
+    (h13 : r.outputPathStatChecked = true ∨ OutputPathNotUsable c = false)
+    (h14 : ValueTooLargeToRound c = false)
+    (h15 : ResultFileNotWritten r c = false)
     (hplatform : ExcelOutput c = false) :
     RunSafe r env l := by
   obtain ⟨rfl, he⟩ := load_ok hload
@@ -149,10 +183,13 @@ theorem accept_safe_partial (r : Repairs) (env : Env) (c : Cfg) (l : Loaded)
     dataSource := site_dataSource hm h5 h6
     realModel := site_realModel h7
     outputPath := site_outputPath (h9.elim (fun hr => repaired_outputPath hr hs) id)
+      (h13.elim (fun hr => repaired_outputPathStat hr hs) id)
     runNumber := site_runNumber (h10.elim (fun hr => repaired_runNumber hr he) id)
     concurrency := h11.elim .inl (fun h => .inr (site_concurrency h))
     cpuProfile := site_cpuProfile (h12.elim (fun hr => repaired_cpuProfile hr hs) id) h12d
-    platform := site_platform hplatform }
+    platform := site_platform hplatform
+    roundable := runOverflows_false h14
+    resultNameable := by simpa [ResultFileNotWritten] using h15 }
 
 /-- the same, with the findings as the list the driver prints -/
 theorem accept_safe_of_no_finding (r : Repairs) (env : Env) (c : Cfg) (l : Loaded)
@@ -164,13 +201,14 @@ theorem accept_safe_of_no_finding (r : Repairs) (env : Env) (c : Cfg) (l : Loade
     intro a b n h; cases a <;> cases b <;> simp_all
   unfold findingNames at hnone
   simp only [List.append_eq_nil_iff] at hnone
-  obtain ⟨⟨⟨⟨⟨⟨⟨⟨⟨⟨⟨⟨h1, h2⟩, h3⟩, h4⟩, h5⟩, h6⟩, h7⟩, h9⟩, h10⟩, h11⟩, h12⟩, h12d⟩, h13⟩ := hnone
+  obtain ⟨⟨⟨⟨⟨⟨⟨⟨⟨⟨⟨⟨⟨⟨⟨⟨h1, h2⟩, h3⟩, h4⟩, h5⟩, h6⟩, _h6m⟩, h7⟩, h9⟩, h9s⟩, h10⟩, h11⟩, h12⟩, h12d⟩, h14⟩, h15⟩, h13⟩ := hnone
   exact accept_safe_partial r env c l hload hinterp (g h1) (g h2) (f h3) (g h4) (f h5) (f h6) (f h7)
-    (g h9) (g h10) (g h11) (g h12) (f h12d) (f h13)
+    (g h9) (g h10) (g h11) (g h12) (f h12d) (g h9s) (f h14) (f h15) (f h13)
 
 /-! ## rejected ⇒ an error value -/
 
-/-- loading is total and a rejection carries at least one error class -/
+/-- loading is total and a rejection carries at least one error class (STRUCTURAL: the case split of `Except` plus the
+`isEmpty` guard of `load`; it holds for any function of that shape) -/
 theorem load_total (r : Repairs) (c : Cfg) : (∃ l, load r c = .ok l) ∨ (∃ es, es ≠ [] ∧ load r c = .error es) := by
   cases h : load r c with
   | ok l => exact .inl ⟨l, rfl⟩
@@ -178,8 +216,11 @@ theorem load_total (r : Repairs) (c : Cfg) : (∃ l, load r c = .ok l) ∨ (∃ 
 
 /-- **reject_is_error_partial.**  Whatever the configuration, loader + interpreter answer with
 `accepted` or with one error value naming at least one class / section — unless the data source
-is a readable non-data-set (then `Saver.SetDecompressionModel` may panic inside `Interpret`). -/
-theorem reject_is_error_partial (r : Repairs) (c : Cfg) (h : CatchmentDataSourceNotLoadable c = false) :
+is a readable non-data-set or an initial value is too large to round (then `Saver.SetDecompressionModel` may panic
+inside `Interpret`).  (STRUCTURAL: near-definitional in `verdict` and `interpretPanics`; the content is in the
+correspondence, which compares `interp=panic` with crem on every generated configuration.) -/
+theorem reject_is_error_partial (r : Repairs) (c : Cfg) (h : CatchmentDataSourceNotLoadable c = false)
+    (hv : ValueTooLargeToRound c = false) :
     verdict r c = .accepted ∨ (∃ es, es ≠ [] ∧ verdict r c = .loadError es) ∨
     (∃ es, es ≠ [] ∧ verdict r c = .interpretError es) := by
   unfold verdict
@@ -187,20 +228,23 @@ theorem reject_is_error_partial (r : Repairs) (c : Cfg) (h : CatchmentDataSource
   | error es => exact .inr (.inl ⟨es, load_error hl, rfl⟩)
   | ok l =>
     obtain ⟨rfl, _⟩ := load_ok hl
-    have hp : interpretPanics (mkLoaded c) = false := interpretPanics_false h
+    have hp : interpretPanics (mkLoaded c) = false := interpretPanics_false h hv
     simp only [hp]
     by_cases hi : (interpret r (mkLoaded c)).isEmpty = true
     · exact .inl (by simp [hi])
     · refine .inr (.inr ⟨interpret r (mkLoaded c), ?_, by simp [hi]⟩)
       intro he; simp [he] at hi
 
-/-- the interpreter's panic is exactly that finding -/
+/-- the interpreter's panic is one of those two findings -/
 theorem interpret_panic_is_finding (r : Repairs) (c : Cfg) (h : verdict r c = .interpretPanic) :
-    CatchmentDataSourceNotLoadable c = true := by
+    CatchmentDataSourceNotLoadable c = true ∨ ValueTooLargeToRound c = true := by
   cases hf : CatchmentDataSourceNotLoadable c with
-  | true => rfl
+  | true => exact .inl rfl
   | false =>
-    rcases reject_is_error_partial r c hf with h' | ⟨es, _, h'⟩ | ⟨es, _, h'⟩ <;> rw [h] at h' <;> cases h'
+    cases hv : ValueTooLargeToRound c with
+    | true => exact .inr rfl
+    | false =>
+      rcases reject_is_error_partial r c hf hv with h' | ⟨es, _, h'⟩ | ⟨es, _, h'⟩ <;> rw [h] at h' <;> cases h'
 
 /-! ## the exclusions are exact -/
 
@@ -224,10 +268,14 @@ theorem finding_unsafe (r : Repairs) (env : Env) (c : Cfg) (l : Loaded)
   · exact unsafe_noDataSource r env h5
   rcases Bool.eq_false_or_eq_true (CatchmentDataSourceNotLoadable c) with h6 | h6
   · exact unsafe_dataSourceNotLoadable r env h6
+  rcases Bool.eq_false_or_eq_true (CatchmentDataSetMalformed c) with h6m | h6m
+  · exact unsafe_dataSourceNotLoadable r env (malformed_notLoadable h6m)
   rcases Bool.eq_false_or_eq_true (NullModelUnderRealAnnealer c) with h7 | h7
   · exact unsafe_nullModel r env h7
   rcases Bool.eq_false_or_eq_true (!r.outputPathChecked && OutputPathNotADirectory c) with h9 | h9
   · simp only [Bool.and_eq_true, Bool.not_eq_true'] at h9; exact unsafe_outputPath r env h9.2
+  rcases Bool.eq_false_or_eq_true (!r.outputPathStatChecked && OutputPathNotUsable c) with h9s | h9s
+  · simp only [Bool.and_eq_true, Bool.not_eq_true'] at h9s; exact unsafe_outputPathStat r env h9s.2
   rcases Bool.eq_false_or_eq_true (!r.runNumberBounded && RunNumberOutOfRange c) with h10 | h10
   · simp only [Bool.and_eq_true, Bool.not_eq_true'] at h10; exact unsafe_runNumber r env h10.2
   rcases Bool.eq_false_or_eq_true (!r.concurrencyCapped && ConcurrencyOutOfRange c) with h11 | h11
@@ -236,9 +284,13 @@ theorem finding_unsafe (r : Repairs) (env : Env) (c : Cfg) (l : Loaded)
   · simp only [Bool.and_eq_true, Bool.not_eq_true'] at h12; exact unsafe_cpuProfile r env h12.2
   rcases Bool.eq_false_or_eq_true (CpuProfilePathIsDirectory c) with h12d | h12d
   · exact unsafe_cpuProfileDir r env h12d
+  rcases Bool.eq_false_or_eq_true (ValueTooLargeToRound c) with h14 | h14
+  · exact unsafe_roundable r env h14
+  rcases Bool.eq_false_or_eq_true (ResultFileNotWritten r c) with h15 | h15
+  · exact unsafe_resultFile r env h15
   rcases Bool.eq_false_or_eq_true (ExcelOutput c) with h13 | h13
   · exact unsafe_excel r env h13
-  exact absurd (by simp [findingNames, h1, h2, h3, h4, h5, h6, h7, h9, h10, h11, h12, h12d, h13]) hsome
+  exact absurd (by simp [findingNames, h1, h2, h3, h4, h5, h6, h6m, h7, h9, h9s, h10, h11, h12, h12d, h13, h14, h15]) hsome
 
 /-- **accept_safe_iff.**  For an accepted configuration, `RunSafe` holds exactly when the driver's
 list of findings is empty. -/
@@ -252,6 +304,51 @@ theorem accept_safe_iff (r : Repairs) (env : Env) (c : Cfg) (l : Loaded)
     exact finding_unsafe r env c l hload hinterp hne hs
   · exact accept_safe_of_no_finding r env c l hload hinterp
 
+/-- **accept_safe_tree.**  `accept_safe_partial` at the repairs that are in crem TODAY (`rTree`, the `repairs=` argument
+of the suite): an accepted configuration satisfies `RunSafe` unless one of the findings that are still open holds of
+it - D17, D18, D23 (no data source / a data source the model cannot be built from), D24, a CPU profile path naming a
+directory, a value too large to round, a summary file that is not written - or the Excel exclusion. -/
+theorem accept_safe_tree (env : Env) (c : Cfg) (l : Loaded)
+    (hload : load rTree c = .ok l) (hinterp : interpret rTree l = [])
+    (h2 : ObjectiveNotOffered c = false) (h3 : LimitNeverBinds env c = false)
+    (h5 : CatchmentWithoutDataSource c = false) (h6 : CatchmentDataSourceNotLoadable c = false)
+    (h7 : NullModelUnderRealAnnealer c = false) (h12d : CpuProfilePathIsDirectory c = false)
+    (h14 : ValueTooLargeToRound c = false) (h15 : ResultFileNotWritten rTree c = false)
+    (hplatform : ExcelOutput c = false) : RunSafe rTree env l :=
+  accept_safe_partial rTree env c l hload hinterp (.inl rfl) (.inr h2) h3 (.inl rfl) h5 h6 h7 (.inl rfl) (.inl rfl)
+    (.inl rfl) (.inl rfl) h12d (.inl rfl) h14 h15 hplatform
+
+/-- at `rTree` the driver can list these findings only (the other seven are repaired) -/
+theorem findingNames_tree (env : Env) (c : Cfg) :
+    ∀ n ∈ findingNames rTree env c, n ∈ ["ObjectiveNotOffered", "LimitNeverBinds", "CatchmentWithoutDataSource",
+      "CatchmentDataSourceNotLoadable", "CatchmentDataSetMalformed", "NullModelUnderRealAnnealer",
+      "CpuProfilePathIsDirectory", "ValueTooLargeToRound", "ResultFileNotWritten", "ExcelOutput"] := by
+  intro n hn
+  have f : ∀ {b : Bool} {m : String}, n ∈ (if b = true then [m] else []) → b = true ∧ n = m := by
+    intro b m h; cases b <;> simp_all
+  have g : ∀ {b : Bool} {m : String}, n ∈ (if (!true && b) = true then [m] else []) → False := by
+    intro b m h; simp at h
+  unfold findingNames at hn
+  simp only [List.mem_append] at hn
+  rcases hn with (((((((((((((((hn | hn) | hn) | hn) | hn) | hn) | hn) | hn) | hn) | hn) | hn) | hn) | hn) | hn) | hn) | hn) | hn
+  · exact (g hn).elim
+  · obtain ⟨_, rfl⟩ := f hn; simp
+  · obtain ⟨_, rfl⟩ := f hn; simp
+  · exact (g hn).elim
+  · obtain ⟨_, rfl⟩ := f hn; simp
+  · obtain ⟨_, rfl⟩ := f hn; simp
+  · obtain ⟨_, rfl⟩ := f hn; simp
+  · obtain ⟨_, rfl⟩ := f hn; simp
+  · exact (g hn).elim
+  · exact (g hn).elim
+  · exact (g hn).elim
+  · exact (g hn).elim
+  · exact (g hn).elim
+  · obtain ⟨_, rfl⟩ := f hn; simp
+  · obtain ⟨_, rfl⟩ := f hn; simp
+  · obtain ⟨_, rfl⟩ := f hn; simp
+  · obtain ⟨_, rfl⟩ := f hn; simp
+
 /-- with its repair declared, a configuration with the finding is no longer accepted
 (D16, D17, run-number bound, output-path check, CPU-profile directory check) -/
 theorem repaired_findings_rejected (r : Repairs) (c : Cfg) (l : Loaded)
@@ -260,11 +357,13 @@ theorem repaired_findings_rejected (r : Repairs) (c : Cfg) (l : Loaded)
     (r.objectiveChecked = true → ObjectiveNotOffered c = false) ∧
     (r.runNumberBounded = true → RunNumberOutOfRange c = false) ∧
     (r.outputPathChecked = true → OutputPathNotADirectory c = false) ∧
-    (r.cpuProfilePathChecked = true → CpuProfilePathNotCreatable c = false) := by
+    (r.cpuProfilePathChecked = true → CpuProfilePathNotCreatable c = false) ∧
+    (r.outputPathStatChecked = true → OutputPathNotUsable c = false) := by
   obtain ⟨rfl, he⟩ := load_ok hload
   obtain ⟨hm, ha, ho, hs⟩ := interpret_nil hinterp
   exact ⟨fun hr => repaired_modulo hr he, fun hr => repaired_objective hr hm ha ho,
-    fun hr => repaired_runNumber hr he, fun hr => repaired_outputPath hr hs, fun hr => repaired_cpuProfile hr hs⟩
+    fun hr => repaired_runNumber hr he, fun hr => repaired_outputPath hr hs, fun hr => repaired_cpuProfile hr hs,
+    fun hr => repaired_outputPathStat hr hs⟩
 
 /-- what the driver prints as `fixed=` (findings that hold syntactically although their repair is declared):
 on an accepted configuration these can only be the two whose repair guards the failure site instead of
@@ -272,24 +371,28 @@ rejecting the configuration - a crash attributed to any other of them shows that
 not in the tree -/
 theorem repaired_names_on_accepted (r : Repairs) (c : Cfg) (l : Loaded)
     (hload : load r c = .ok l) (hinterp : interpret r l = []) :
-    ∀ n ∈ repairedNames r c, n = "LoopInvariantWithMultiObjective" ∨ n = "ConcurrencyOutOfRange" := by
-  obtain ⟨h1, h2, h3, h4, h5⟩ := repaired_findings_rejected r c l hload hinterp
+    ∀ n ∈ repairedNames r c, n = "LoopInvariantWithMultiObjective" ∨ n = "ConcurrencyOutOfRange" ∨
+      n = "ResultFileNotWritten" := by
+  obtain ⟨h1, h2, h3, h4, h5, h6⟩ := repaired_findings_rejected r c l hload hinterp
   intro n hn
   unfold repairedNames at hn
   simp only [List.mem_append] at hn
   have f : ∀ {a b : Bool} {m : String}, (a = true → b = false) → n ∈ (if (a && b) = true then [m] else []) → False := by
     intro a b m hab hm
     cases a <;> cases b <;> simp_all
-  rcases hn with (((((hn | hn) | hn) | hn) | hn) | hn) | hn
+  rcases hn with (((((((hn | hn) | hn) | hn) | hn) | hn) | hn) | hn) | hn
   · exact (f h1 hn).elim
   · exact (f h2 hn).elim
   · left
     cases hb : (r.loopInvariantGuarded && LoopInvariantWithMultiObjective c) <;> simp_all
   · exact (f h4 hn).elim
+  · exact (f h6 hn).elim
   · exact (f h3 hn).elim
-  · right
+  · right; left
     cases hb : (r.concurrencyCapped && ConcurrencyOutOfRange c) <;> simp_all
   · exact (f h5 hn).elim
+  · right; right
+    split at hn <;> simp_all
 
 /-! ## non-vacuity, and the refutation of the full statements at concrete witnesses
 
@@ -301,15 +404,8 @@ def wBase : Cfg :=
   [⟨.scenario, "Name", .str "scn"⟩, ⟨.annealer, "Type", .str "Kirkpatrick"⟩, ⟨.model, "Type", .str "DumbModel"⟩,
    ⟨.annealerParams, "MaximumIterations", .int 5⟩]
 
-/-- today's tree: no repair declared -/
-def r0 : Repairs := {}
-/-- every proposed repair declared -/
-def rAll : Repairs := ⟨true, true, true, true, true, true, true⟩
-/-- the repairs that are in crem today (the `repairs=` argument in checkprops.py) -/
-def rTree : Repairs := { rAll with objectiveChecked := false }
-
 /-- data facts used by the witnesses: on data set `valid` every limit up to 1.0 binds, none from 2000.0 does -/
-def wEnv : Env := { zones := [("valid", List.replicate 6 ⟨1000, 2000000⟩)] }
+def wEnv : Env := { zones := [("valid", List.replicate 6 ⟨1000000, 2000000000⟩)] }
 
 /-- catchment model on the shipped data, Kirkpatrick minimising sediment -/
 def wCatchment : Cfg :=
@@ -328,7 +424,7 @@ example : accepts r0 wBase = true ∧ RunSafe r0 wEnv (mkLoaded wBase) ∧ findi
 example : accepts r0 wCatchment = true ∧ RunSafe r0 wEnv (mkLoaded wCatchment) ∧ findingNames r0 wEnv wCatchment = [] := by decide
 example : accepts r0 wSuppa = true ∧ RunSafe r0 wEnv (mkLoaded wSuppa) := by decide
 /-- a binding limit is safe -/
-example : let w := ⟨.modelParams, "MaximumImplementationCost", .flt 500⟩ :: wCatchment
+example : let w := ⟨.modelParams, "MaximumImplementationCost", .flt 500000⟩ :: wCatchment
     accepts r0 w = true ∧ RunSafe r0 wEnv (mkLoaded w) := by decide
 /-- modulo 0 is harmless while the Annealing level is discarded, or with a zero budget -/
 example : let w := ⟨.reporting, "ReportEveryNumberOfIterations", .int 0⟩ :: ⟨.logDest, "Annealing", .str "Discarded"⟩ :: wBase
@@ -353,7 +449,7 @@ example : let w := ⟨.annealerParams, "DecisionVariable", .str "SedimentVsCost"
     accepts r0 w = true ∧ ¬ RunSafe r0 wEnv (mkLoaded w) := by decide
 
 /-- D18  `MaximumImplementationCost = 5000.0` where nothing costs that much -/
-def wLimit : Cfg := ⟨.modelParams, "MaximumImplementationCost", .flt 5000000⟩ :: wCatchment
+def wLimit : Cfg := ⟨.modelParams, "MaximumImplementationCost", .flt 5000000000⟩ :: wCatchment
 example : accepts r0 wLimit = true ∧ ¬ RunSafe r0 wEnv (mkLoaded wLimit) ∧ findingNames r0 wEnv wLimit = ["LimitNeverBinds"] := by decide
 
 /-- D22  `CheckingLoopInvariant = true` with Suppapitnarm -/
@@ -396,6 +492,133 @@ example : let w := ⟨.scenario, "CpuProfilePath", .path "dir"⟩ :: wBase
 example : let w := ⟨.scenario, "CpuProfilePath", .path "prof"⟩ :: wBase
     accepts r0 w = true ∧ RunSafe r0 wEnv (mkLoaded w) ∧ findingNames r0 wEnv w = [] := by decide
 
+/-! ### the findings added after the audit (third round): data-set content, values too large to round, result file
+names, an unusable output path; and the decoder facts the audit found missing -/
+
+/-- `mant × 10^309` millionths = `mant × 10^303`: `big 180` is 1.8e305 -/
+def big (mant : Int) : Int := mant * 1000000000000000000000000000000000000000000000000000000000000000000000000000000000000000000000000000000000000000000000000000000000000000000000000000000000000000000000000000000000000000000000000000000000000000000000000000000000000000000000000000000000000000000000000000000000000000000000000000000000000000000000
+
+/-- D15 family (C18) seen from the configuration: `[Model.Parameters] InitialObjectiveValue = 1.8e305` is accepted and
+every run fails in `RoundFloat`; 1.79e305 is safe (Annealing log level discarded) -/
+def wHuge : Cfg := ⟨.logDest, "Annealing", .str "Discarded"⟩ :: ⟨.modelParams, "InitialObjectiveValue", .flt (big 180)⟩ :: wBase
+example : accepts rTree wHuge = true ∧ ¬ RunSafe rTree wEnv (mkLoaded wHuge) ∧ findingNames rTree wEnv wHuge = ["ValueTooLargeToRound"] := by decide
+example : let w := ⟨.logDest, "Annealing", .str "Discarded"⟩ :: ⟨.modelParams, "InitialObjectiveValue", .flt (big 179)⟩ :: wBase
+    accepts rTree w = true ∧ RunSafe rTree wEnv (mkLoaded w) ∧ findingNames rTree wEnv w = [] := by decide
+example : let w := ⟨.modelParams, "InitialObjectiveValue", .flt (-(big 180))⟩ :: wBase
+    accepts rTree w = true ∧ ¬ RunSafe rTree wEnv (mkLoaded w) := by decide
+/-- … while the Annealing level is logged (the default destination is standard output) every value is ALSO written with
+six decimals: 1.8e302 fails, 1.79e302 does not - and the same goes for the annealer's `StartingTemperature` -/
+example : let w := ⟨.logDest, "Annealing", .str "StandardOutput"⟩ :: ⟨.modelParams, "InitialObjectiveValue", .flt (big 179 / 1000)⟩ :: wBase
+    accepts rTree w = true ∧ RunSafe rTree wEnv (mkLoaded w) := by decide
+example : let w := ⟨.modelParams, "InitialObjectiveValue", .flt (big 180 / 1000)⟩ :: wBase
+    accepts rTree w = true ∧ ¬ RunSafe rTree wEnv (mkLoaded w) ∧ findingNames rTree wEnv w = ["ValueTooLargeToRound"] := by decide
+example : let w := ⟨.logDest, "Annealing", .str "Discarded"⟩ :: ⟨.modelParams, "InitialObjectiveValue", .flt (big 180 / 1000)⟩ :: wBase
+    accepts rTree w = true ∧ RunSafe rTree wEnv (mkLoaded w) := by decide
+example : let w := ⟨.annealerParams, "StartingTemperature", .flt (big 180 / 1000)⟩ :: wBase
+    accepts rTree w = true ∧ ¬ RunSafe rTree wEnv (mkLoaded w) ∧ findingNames rTree wEnv w = ["ValueTooLargeToRound"] := by decide
+example : let w := ⟨.logDest, "Annealing", .str "Discarded"⟩ :: ⟨.annealerParams, "StartingTemperature", .flt (big 100000)⟩ :: wBase
+    accepts rTree w = true ∧ RunSafe rTree wEnv (mkLoaded w) := by decide
+/-- … the multi-objective dumb model: beyond MaxFloat64/1000 every run fails, beyond MaxFloat64/100 `Interpret` itself panics -/
+def wSuppaMo : Cfg :=
+  [⟨.logDest, "Annealing", .str "Discarded"⟩, ⟨.scenario, "Name", .str "scn"⟩, ⟨.annealer, "Type", .str "Suppapitnarm"⟩, ⟨.model, "Type", .str "MultiObjectiveDumbModel"⟩,
+   ⟨.annealerParams, "MaximumIterations", .int 5⟩]
+example : accepts rTree wSuppaMo = true ∧ RunSafe rTree wEnv (mkLoaded wSuppaMo) := by decide
+example : let w := ⟨.modelParams, "InitialObjectiveTwoValue", .flt (big 180)⟩ :: wSuppaMo
+    accepts rTree w = true ∧ ¬ RunSafe rTree wEnv (mkLoaded w) ∧ findingNames rTree wEnv w = ["ValueTooLargeToRound"] := by decide
+/-- … whose values the model itself rounds to 2 decimals only: it is the CSV summary and the Detail-level files that
+round to 3, a JSON summary alone does not -/
+example : let w := ⟨.scenario, "OutputType", .str "JSON"⟩ :: ⟨.modelParams, "InitialObjectiveTwoValue", .flt (big 180)⟩ :: wSuppaMo
+    accepts rTree w = true ∧ RunSafe rTree wEnv (mkLoaded w) ∧ findingNames rTree wEnv w = [] := by decide
+example : let w := ⟨.scenario, "OutputLevel", .str "Detail"⟩ :: ⟨.scenario, "OutputType", .str "JSON"⟩ ::
+      ⟨.modelParams, "InitialObjectiveTwoValue", .flt (big 180)⟩ :: wSuppaMo
+    accepts rTree w = true ∧ ¬ RunSafe rTree wEnv (mkLoaded w) := by decide
+example : verdict rTree (⟨.modelParams, "InitialObjectiveThreeValue", .flt (big 1800)⟩ :: wSuppaMo) = .interpretPanic := by decide
+example : verdict rTree (⟨.modelParams, "InitialObjectiveThreeValue", .flt (big 1790)⟩ :: wSuppaMo) = .accepted := by decide
+/-- a decimal that is no finite double is a PARSE error wherever it stands (1.8e308) -/
+example : verdict rTree (⟨.userDetail, "Anything", .flt (big 180000)⟩ :: wBase) = .loadError [.decode] := by decide
+example : verdict rTree (⟨.userDetail, "Anything", .flt (big 100000)⟩ :: wBase) = .accepted := by decide
+
+/-- the scenario name and the summary files.  `Name = "My Solution (a)"`, three runs: accepted, every run writes
+`My-Summary.csv`; one run is fine; so is the name once C12's repair is declared -/
+def wNamed (name : String) (runs : Int) : Cfg :=
+  [⟨.scenario, "Name", .str name⟩, ⟨.scenario, "RunNumber", .int runs⟩, ⟨.annealer, "Type", .str "Kirkpatrick"⟩,
+   ⟨.model, "Type", .str "DumbModel"⟩, ⟨.annealerParams, "MaximumIterations", .int 5⟩]
+example : let w := wNamed "My Solution (a)" 3
+    accepts rTree w = true ∧ ¬ RunSafe rTree wEnv (mkLoaded w) ∧ findingNames rTree wEnv w = ["ResultFileNotWritten"] ∧
+    expectedSummaryFiles rTree (mkLoaded w) = 1 := by decide
+example : let w := wNamed "My Solution (a)" 1
+    accepts rTree w = true ∧ RunSafe rTree wEnv (mkLoaded w) ∧ findingNames rTree wEnv w = [] := by decide
+example : let w := wNamed "Best Solution" 2
+    accepts rTree w = true ∧ ¬ RunSafe rTree wEnv (mkLoaded w) := by decide
+example : let w := wNamed "My Solution (a)" 3
+    accepts rAll w = true ∧ RunSafe rAll wEnv (mkLoaded w) ∧ findingNames rAll wEnv w = [] ∧
+    repairedNames rAll w = ["ResultFileNotWritten"] ∧ expectedSummaryFiles rAll (mkLoaded w) = 3 := by decide
+example : summaryFileName rTree (mkLoaded (wNamed "Other Name/2" 3)) "Other Name/2" 2 = "OtherName_of_2(2_of_3)-Summary.csv".toList := by decide
+set_option maxRecDepth 4000 in
+/-- a file name component of more than 255 BYTES (61 four-byte characters + "-Summary.csv" = 256), or a NUL in it:
+accepted, the run completes, nothing is written - with or without C12's repair -/
+example : let w := wNamed (String.ofList (List.replicate 61 (Char.ofNat 0x1D11E))) 1
+    accepts rAll w = true ∧ ¬ RunSafe rAll wEnv (mkLoaded w) ∧ findingNames rAll wEnv w = ["ResultFileNotWritten"] ∧
+    expectedSummaryFiles rAll (mkLoaded w) = 0 := by decide
+set_option maxRecDepth 4000 in
+example : let w := wNamed (String.ofList (List.replicate 60 (Char.ofNat 0x1D11E))) 1
+    accepts rAll w = true ∧ RunSafe rAll wEnv (mkLoaded w) := by decide
+example : let w := wNamed (String.ofList ['a', Char.ofNat 0, 'b']) 1
+    accepts rTree w = true ∧ ¬ RunSafe rTree wEnv (mkLoaded w) := by decide
+
+/-- D23 family: a data set with the three tables whose content cannot be consumed: `Interpret` itself panics;
+a meta-file whose table file does not load: accepted, the runs fail; a harmless variation: safe -/
+example : let w := ⟨.modelParams, "DataSourcePath", .path "mal.valid.drop-A-14"⟩ :: wNoData
+    verdict rTree w = .interpretPanic ∧
+    findingNames rTree wEnv w = ["CatchmentDataSourceNotLoadable", "CatchmentDataSetMalformed"] := by decide
+example : let w := ⟨.modelParams, "DataSourcePath", .path "unl.valid.gone-G"⟩ :: wNoData
+    accepts rTree w = true ∧ ¬ RunSafe rTree wEnv (mkLoaded w) ∧ findingNames rTree wEnv w = ["CatchmentDataSourceNotLoadable"] := by decide
+example : let w := ⟨.modelParams, "DataSourcePath", .path "okd.valid.extracol-A"⟩ :: wNoData
+    accepts rTree w = true ∧ RunSafe rTree wEnv (mkLoaded w) ∧ findingNames rTree wEnv w = [] := by decide
+
+/-- the output path: every EXISTING non-directory is rejected since af2e412 (a data-set file too); a path below a file
+(`os.Stat` fails, but not with "does not exist") was accepted and made every run fail -/
+example : verdict rTree (⟨.scenario, "OutputPath", .path "valid"⟩ :: wBase) = .interpretError [.scenario] := by decide
+example : findingNames r0 wEnv (⟨.scenario, "OutputPath", .path "badcsv"⟩ :: wBase) = ["OutputPathNotADirectory"] := by decide
+example : let w := ⟨.scenario, "OutputPath", .path "underfile"⟩ :: wBase
+    let r : Repairs := { rTree with outputPathStatChecked := false }
+    accepts r w = true ∧ ¬ RunSafe r wEnv (mkLoaded w) ∧ findingNames r wEnv w = ["OutputPathNotUsable"] ∧
+    verdict rTree w = .interpretError [.scenario] := by decide
+
+/-- the bank-erosion factor has accepted values (the audit found none expressible in thousandths) -/
+example : ∃ v, validate .bankErosion v = true := ⟨.flt 150, by decide⟩
+example : let w := ⟨.modelParams, "BankErosionFudgeFactor", .flt 150⟩ :: wCatchment
+    accepts rTree w = true ∧ RunSafe rTree wEnv (mkLoaded w) := by decide
+example : verdict rTree (⟨.modelParams, "BankErosionFudgeFactor", .flt 501⟩ :: wCatchment) = .interpretError [.model] := by decide
+example : verdict rTree (⟨.modelParams, "BankErosionFudgeFactor", .flt 9⟩ :: wCatchment) = .interpretError [.model] := by decide
+
+/-- keys of a struct table are matched up to case (`[scenario] name = …  [model] TYPE = …` runs), also with the
+Kelvin sign for a `k`; keys of a map table are not -/
+def wFolded : Cfg :=
+  [⟨.scenario, "name", .str "scn"⟩, ⟨.annealer, "tYPE", .str "Kirkpatrick"⟩, ⟨.model, "TYPE", .str "DumbModel"⟩,
+   ⟨.annealerParams, "MaximumIterations", .int 5⟩]
+example : accepts rTree wFolded = true ∧ RunSafe rTree wEnv (mkLoaded wFolded) ∧
+    (mkLoaded wFolded).name = .str "scn" ∧ (mkLoaded wFolded).annealerType = "Kirkpatrick" ∧ (mkLoaded wFolded).modelType = .str "DumbModel" := by decide
+example : findingNames rTree wEnv [⟨.scenario, "NAME", .str "scn"⟩, ⟨.annealer, "type", .str "Kirkpatrick"⟩, ⟨.model, "type", .str "NullModel"⟩]
+    = ["NullModelUnderRealAnnealer"] := by decide
+example : (mkLoaded (⟨.reporting, String.ofList ['C', 'h', 'e', 'c', Char.ofNat 0x212A, 'i', 'n', 'g', 'L', 'o', 'o', 'p',
+    'I', 'n', 'v', 'a', 'r', 'i', 'a', 'n', 't'], .bool true⟩ :: wBase)).loopInvariant = true := by decide
+example : maxIterations (mkLoaded (⟨.annealerParams, "maximumiterations", .int 5⟩ :: wNull)) = 0 := by decide
+/-- a scalar where a struct table is expected is a decode error; written as an inline table its key is unknown;
+arrays and datetimes are taken by no scalar field, are skipped for a map field, and are stored in a free map -/
+example : verdict rTree (⟨.scenario, "Reporting", .int 1⟩ :: wBase) = .loadError [.decode] := by decide
+example : verdict rTree (⟨.scenario, "reporting", .table⟩ :: wBase) = .loadError [.unknown] := by decide
+example : verdict rTree (⟨.top, "Model", .int 1⟩ :: wBase) = .loadError [.decode] := by decide
+example : verdict rTree (⟨.top, "metadata", .table⟩ :: ⟨.top, "Bogus", .int 1⟩ :: wBase) = .loadError [.unknown] := by decide
+example : verdict rTree (⟨.scenario, "RunNumber", .array⟩ :: wBase) = .loadError [.decode] := by decide
+example : verdict rTree (⟨.reporting, "LogLevelDestinations", .datetime⟩ :: ⟨.userDetail, "Dates", .array⟩ :: wBase) = .accepted := by decide
+example : verdict rTree (⟨.modelParams, "InitialObjectiveValue", .datetime⟩ :: wBase) = .interpretError [.model] := by decide
+
+/-- the full statement stays false at the repairs that are in the tree -/
+example : ¬ ∀ (env : Env) (c : Cfg) (l : Loaded), load rTree c = .ok l → interpret rTree l = [] → RunSafe rTree env l := by
+  intro h
+  exact absurd (h wEnv wHuge (mkLoaded wHuge) (by rfl) (by decide)) (by decide)
+
 /-- the full statement `accept_safe` is false -/
 example : ¬ ∀ (env : Env) (c : Cfg) (l : Loaded), load r0 c = .ok l → interpret r0 l = [] → RunSafe r0 env l := by
   intro h
@@ -425,12 +648,12 @@ example : verdict r0 [⟨.scenario, "Name", .str ""⟩, ⟨.scenario, "RunNumber
 example : verdict r0 (⟨.scenario, "Name", .int 42⟩ :: wBase) = .loadError [.decode] := by decide
 example : verdict r0 [⟨.scenario, "Name", .str "s"⟩, ⟨.annealer, "Type", .str "Kirkpatrick"⟩, ⟨.model, "Type", .str "TestModel"⟩]
     = .interpretError [.model] := by decide
-example : verdict r0 (⟨.annealerParams, "CoolingFactor", .flt 1500⟩ :: ⟨.modelParams, "Rogue", .flt 200⟩ :: wBase)
+example : verdict r0 (⟨.annealerParams, "CoolingFactor", .flt 1500000⟩ :: ⟨.modelParams, "Rogue", .flt 200000⟩ :: wBase)
     = .interpretError [.model, .annealer] := by decide
 /-- quirks of the decoder, transcribed: a negative integer is taken for an unsigned field, a map field
 written as a string is silently skipped, an unknown annealer parameter is ignored -/
 example : accepts r0 (⟨.reporting, "ReportEveryNumberOfIterations", .int (-1)⟩ :: ⟨.scenario, "UserDetail", .str "notATable"⟩ ::
-    ⟨.annealerParams, "HereIsARogueAnnealerParameter", .flt 200⟩ :: wBase) = true := by decide
+    ⟨.annealerParams, "HereIsARogueAnnealerParameter", .flt 200000⟩ :: wBase) = true := by decide
 
 /-! ### with the repairs declared, the repaired witnesses are rejected with an error value, or run safely -/
 example : verdict rAll wModulo = .loadError [.mandatory ["ReportEvery"]] := by decide
